@@ -235,6 +235,7 @@ func rrun(args []string) error {
 		b := append([]byte{}, buf.Bytes()...)
 		f := run.DecodeForTrace(b)
 		tr.Add(wl.FileEv(f))
+		tr.Add(lfileEv(f))
 		if err := readCases(tr, *mode, *only, w, b, f, *seed); err != nil {
 			return err
 		}
@@ -266,6 +267,32 @@ func parallel(jobs []func() wl.Ev) []wl.Ev {
 	close(ch)
 	wg.Wait()
 	return out
+}
+
+// lfileEv describes the file in the vocabulary of Lexer.tla: records with their byte lengths, chunks with header
+// length, sizes, compression class and the lengths of their inner records, attachments with the length of their
+// fixed part and of their data.
+func lfileEv(f *refmcap.File) wl.Ev {
+	recs := []any{}
+	for _, r := range f.Recs {
+		e := map[string]any{"k": refmcap.KindOf(r.Op), "len": r.Len}
+		switch r.Op {
+		case refmcap.OpChunk:
+			comp := "none"
+			if len(r.Compression) > 0 {
+				comp = "z"
+			}
+			inner := []any{}
+			for _, in := range r.Inner {
+				inner = append(inner, map[string]any{"k": refmcap.KindOf(in.Op), "len": in.Len})
+			}
+			e["comp"], e["hdr"], e["usize"], e["csize"], e["inner"] = comp, r.Len-r.CSize, r.USize, r.CSize, inner
+		case refmcap.OpAttachment:
+			e["fixed"], e["dsize"], e["namelen"], e["medialen"] = r.Len-r.DataSize-4, r.DataSize, len(r.Name), len(r.MediaType)
+		}
+		recs = append(recs, e)
+	}
+	return wl.Ev{"ev": "LFile", "recs": recs}
 }
 
 func want(only, key string, v int) bool {
